@@ -15,6 +15,7 @@ def rules(ctx, tier):
         lambda: data.rule_mutdefault(ctx),
         lambda: memo.rule_purememo(ctx),
         lambda: memo.rule_nostate(ctx),
+        lambda: memo.rule_nostate(ctx, 'write'),
         lambda: forward.rule_fwd_config(ctx),
         lambda: search.rule_dedup(ctx),
     ]
